@@ -114,7 +114,7 @@ def getf(st, name):
 
 def decide_post(res, assume_extra, post):
     s = z3.Solver()
-    s.set("timeout", int(os.environ.get("VERIF_SOLVER_TIMEOUT_MS", "120000")))
+    s.set("timeout", int(os.environ.get("VERIF_C08_TIMEOUT_MS", "60000")))
     s.add(res.ctx.side)
     s.add(res.pc)
     s.add(assume_extra)
@@ -227,11 +227,11 @@ def check_add_op(interp, V, cov):
         ops = getf(st, "ops")
         V.add(f"{tag}: operation appended to the batch's op list", "discharged" if len(ops) == 1 and ops[0] is op else "inconclusive")
         for label, post in posts:
-            if label.startswith("opcode packed"):
-                # bit-level obligation: split on the (nine) slot positions so that the shift is concrete in each query
+            if label.startswith(("opcode packed", "invariant preserved", "an operation with an immediate")):
+                # arithmetic over 2^(7*op_idx): one query per slot position keeps each of them linear
                 for j in range(GROUP_SIZE + 1):
                     s_, info = decide_post(res, [v["op_idx"] == j], post)
-                    record(V, f"{tag}: {label} [slot {j}]", s_, info, cov)
+                    record(V, f"{tag}: {label} [op_idx = {j}]", s_, info, cov)
                 continue
             s_, info = decide_post(res, [], post)
             record(V, f"{tag}: {label}", s_, info, cov)
